@@ -545,8 +545,10 @@ func TestReplay(t *testing.T) {
 		t.Skip()
 	}
 	var rf struct {
-		Ext   string `json:"ext"`
-		Steps []step `json:"steps"`
+		Ext    string      `json:"ext"`
+		Steps  []step      `json:"steps"`
+		Leg    string      `json:"leg"`
+		Revoke *revokeCase `json:"revoke"`
 	}
 	if err := common.LoadJSON(p, &rf); err != nil {
 		t.Fatalf("HARNESS-ERROR: %v", err)
@@ -556,5 +558,9 @@ func TestReplay(t *testing.T) {
 			fmt.Printf("VIOLATION property=C11 replay=%s\n", p)
 		}
 	}()
+	if rf.Leg == "revoke" && rf.Revoke != nil {
+		rapid.Check(t, func(t *rapid.T) { runRevoke(t, rf.Revoke) })
+		return
+	}
 	rapid.Check(t, func(t *rapid.T) { runCase(t, rf.Steps, rf.Ext) })
 }
